@@ -340,6 +340,8 @@ func (d *Device) ProcessEvents(inputEvents <-chan *input.InputEvent) {
 	cancel()
 	log.Info("input events closed", d.logFields(logger.Debug)...)
 
+	// the LED goroutine may still be in the middle of a refresh cycle
+	d.eventProcessMutex.Lock()
 	if len(d.noteTracker) > 0 || len(d.analogNoteTracker) > 0 {
 		log.Info("active midi notes cleanup", d.logFields(logger.Debug)...)
 	}
@@ -361,6 +363,7 @@ func (d *Device) ProcessEvents(inputEvents <-chan *input.InputEvent) {
 	for identifier := range d.analogNoteTracker {
 		d.AnalogNoteOff(identifier, &input.InputEvent{})
 	}
+	d.eventProcessMutex.Unlock()
 
 	log.Info("virtual midi device waiting...", d.logFields(logger.Debug)...)
 	wg.Wait()
